@@ -1525,6 +1525,229 @@ theorem C05_queued_data_only_on_satisfying_conn (cfg : Cfg) (doms : Nat → Doma
   exact C05_data_only_on_satisfying_conn_from_start cfg doms (ms.map QMsg.toMsg) _
     (mem_zip_map QMsg.toMsg ms _ p hp) u hu
 
+/-! ## a crashed TLSA discovery fails closed (round 9; the C05 mirror of `C13_crashed_discovery_fails_closed`) -/
+
+/-- does `discoverTLSA` make the CNAME-type query for this MX? -/
+def reachesCnameQuery (mx : MX) : Bool := mx.cname != .none && !(mx.cname == .secure && mx.aAD)
+
+/-- does `discoverTLSA` make a TLSA lookup for this MX? -/
+def reachesTlsaLookup (mx : MX) : Bool :=
+  match mx.cname with
+  | .none => mx.aAD
+  | .secure => mx.aAD || !mx.cnameErr
+  | .insecure => false
+
+/-- **A crash at a stage discovery reaches is a discovery failure** (never "no TLSA records"); a crash at a stage it does
+not reach changes nothing. -/
+theorem C05_crashed_discovery_fails_closed (mx : MX) :
+    discover (mx.crashedAt 1) = .fail ∧
+    (reachesCnameQuery mx = true → discover (mx.crashedAt 2) = .fail) ∧
+    (reachesCnameQuery mx = false → discover (mx.crashedAt 2) = discover mx) ∧
+    (reachesTlsaLookup mx = true → discover (mx.crashedAt 3) = .fail) ∧
+    (reachesTlsaLookup mx = false → discover (mx.crashedAt 3) = discover mx) := by
+  obtain ⟨srv, up, st, ce, sm, aad, tad, tl, rt, cn, tli, tliad, cerr⟩ := mx
+  refine ⟨?_, ?_, ?_, ?_, ?_⟩ <;>
+    cases cn <;> cases aad <;> cases cerr <;>
+    simp [MX.crashedAt, discover, lookupInitial, canonTlsaAD, reachesCnameQuery, reachesTlsaLookup]
+
+/-- in the spec's terms: the facts of a crashed address lookup / TLSA lookup read "discovery failed" -/
+theorem C05_crashed_discovery_is_failed_discovery (mx : MX) :
+    discovery (mx.crashedAt 1) = .failed ∧
+    (mx.cname = .none → mx.aAD = true → discovery (mx.crashedAt 3) = .failed) := by
+  obtain ⟨srv, up, st, ce, sm, aad, tad, tl, rt, cn, tli, tliad, cerr⟩ := mx
+  constructor
+  · cases cn <;> simp [MX.crashedAt, discovery, governing, atBase]
+  · intro h1 h2
+    simp at h1 h2
+    subst h1; subst h2
+    simp [MX.crashedAt, discovery, governing, atBase]
+
+/-- hence, with DANE in force, no connection to an MX whose discovery crashed carries content, and the attempt ends in
+a temporary error — whatever the server offers (plaintext, any certificate) -/
+theorem C05_crashed_discovery_never_used (F : List Policy) (ov : Bool) (d : Domain) (mx : MX) (s : Nat)
+    (hd : Policy.dane ∈ F) (hf : discover (mx.crashedAt s) = .fail) :
+    ∃ e, attemptMX F ov d (mx.crashedAt s) = .error e := by
+  generalize mx.crashedAt s = m at hf
+  unfold attemptMX
+  cases h1 : checkMXs F 0 d m with
+  | error e => exact ⟨e, rfl⟩
+  | ok mxl =>
+    simp only
+    cases h2 : connect m with
+    | error e => exact ⟨e, rfl⟩
+    | ok r =>
+      obtain ⟨tl, st⟩ := r
+      simp only
+      have : ∀ (l : List Policy) (tl : Nat), Policy.dane ∈ l → ∃ e, checkConns l tl d m st = .error e := by
+        intro l
+        induction l with
+        | nil => intro tl h; simp at h
+        | cons p rest ih =>
+          intro tl hmem
+          unfold checkConns
+          cases hp : checkConn p tl d m st with
+          | error e => exact ⟨e, by simp⟩
+          | ok v =>
+            simp only
+            rcases List.mem_cons.mp hmem with h | h
+            · subst h; simp [checkConn, hf] at hp
+            · exact ih _ h
+      obtain ⟨e, he⟩ := this F tl hd
+      exact ⟨e, by simp [he]⟩
+
+/-! ## the configured minimum levels (round 9)
+
+Spec, from the documentation of `local_policy`: `min_tls_level none|encrypted|authenticated` (default `encrypted`),
+`min_mx_level none|mtasts|dnssec` (default `none`).  The level a configuration word DOCUMENTS is the level of its
+lower-case spelling; a word whose lower-case spelling is not one of the three documents nothing. -/
+
+/-- ASCII lower case of a byte -/
+def lowerByte (b : Nat) : Nat := if 65 ≤ b ∧ b ≤ 90 then b + 32 else b
+
+def docTable (a b c : Word) (w : Word) : Option Nat :=
+  let l := w.map lowerByte
+  if l = a then some 0 else if l = b then some 1 else if l = c then some 2 else none
+
+/-- the level `min_tls_level <w>` documents (`none`: the directive is left out — the documented default) -/
+def documentedTLS : Option Word → Option Nat
+  | none => some 1
+  | some w => docTable wNone wEncrypted wAuthenticated w
+
+def documentedMX : Option Word → Option Nat
+  | none => some 0
+  | some w => docTable wNone wMtasts wDnssec w
+
+theorem tlsLevelOfWord_documented (w : Word) (t : Nat) (h : tlsLevelOfWord w = some t) :
+    documentedTLS (some w) = some t := by
+  unfold tlsLevelOfWord at h
+  unfold documentedTLS docTable
+  split at h
+  · next e => subst e; simp at h; subst h; decide
+  · split at h
+    · next e => subst e; simp at h; subst h; decide
+    · split at h
+      · next e => subst e; simp at h; subst h; decide
+      · simp at h
+
+theorem mxLevelOfWord_documented (w : Word) (t : Nat) (h : mxLevelOfWord w = some t) :
+    documentedMX (some w) = some t := by
+  unfold mxLevelOfWord at h
+  unfold documentedMX docTable
+  split at h
+  · next e => subst e; simp at h; subst h; decide
+  · split at h
+    · next e => subst e; simp at h; subst h; decide
+    · split at h
+      · next e => subst e; simp at h; subst h; decide
+      · simp at h
+
+/-- **An accepted configuration enforces the documented levels**: whenever `localPolicy.Init` accepts the two
+arguments (written or left out), the policy it produces carries exactly the levels the words document — there is no
+spelling that is accepted and means something else (in particular: nothing). -/
+theorem C05_accepted_config_enforces_documented_level (tw mw : Option Word) (p : Policy)
+    (h : localInit tw mw = some p) :
+    ∃ t m, p = Policy.localP t m ∧ documentedTLS tw = some t ∧ documentedMX mw = some m := by
+  unfold localInit at h
+  split at h
+  · next t m ht hm =>
+    simp at h
+    refine ⟨t, m, h.symm, ?_, ?_⟩
+    · cases tw with
+      | none => simp [minTLSOf] at ht; rw [← ht]; decide
+      | some w => exact tlsLevelOfWord_documented w t (by simpa [minTLSOf] using ht)
+    · cases mw with
+      | none => simp [minMXOf] at hm; rw [← hm]; decide
+      | some w => exact mxLevelOfWord_documented w m (by simpa [minMXOf] using hm)
+  · simp at h
+
+/-- the documented words ARE accepted (`localInit` is total on them), any other word is refused -/
+theorem C05_documented_words_accepted :
+    localInit (some wAuthenticated) (some wDnssec) = some (.localP 2 2) ∧
+    localInit (some wEncrypted) (some wMtasts) = some (.localP 1 1) ∧
+    localInit (some wNone) (some wNone) = some (.localP 0 0) ∧
+    localInit none none = some (.localP 1 0) := by decide
+
+theorem C05_unknown_word_refused (tw : Word) (mw : Option Word)
+    (h : tw ≠ wNone ∧ tw ≠ wEncrypted ∧ tw ≠ wAuthenticated) : localInit (some tw) mw = none := by
+  unfold localInit minTLSOf tlsLevelOfWord
+  simp [h.1, h.2.1, h.2.2]
+
+/-- "Authenticated" (capital A) documents level 2 and is not accepted as anything else: it is refused -/
+example : documentedTLS (some (65 :: wAuthenticated.tail)) = some 2 ∧
+    localInit (some (65 :: wAuthenticated.tail)) none = none := by decide
+
+/-- With the local policy of an accepted configuration in the list, every connection that carries content meets the
+DOCUMENTED minimum levels (ground-truth levels `mxAuth` / `tlsAuthOf`), in every history — for messages the policies
+are in force for. -/
+theorem C05_documented_minimum_enforced (cfg : Cfg) (doms : Nat → Domain) (msgs : List Msg)
+    (tw mw : Option Word) (p : Policy) (hacc : localInit tw mw = some p) (hp : p ∈ cfg.policies) :
+    ∀ q ∈ msgs.zip (run cfg doms msgs emptyPool), ∀ u ∈ q.2.data,
+      ¬ (q.1.tlsNo = true ∧ cfg.allowOverride = true) →
+      ∃ t m, documentedTLS tw = some t ∧ documentedMX mw = some m ∧
+        t ≤ tlsAuthOf cfg.policies u.conn.mx u.conn.tls ∧ m ≤ mxAuth cfg.policies (doms u.dom) u.conn.mx := by
+  intro q hq u hu hno
+  obtain ⟨t, m, rfl, ht, hm⟩ := C05_accepted_config_enforces_documented_level tw mw p hacc
+  have hs := (C05_data_only_on_satisfying_conn_from_start cfg doms msgs q hq u hu).1
+  have hF : inForce cfg q.1 = cfg.policies := by unfold inForce; simp [hno]
+  have hl := hs.policies.localP t m (by rw [hF]; exact hp)
+  rw [hF] at hl
+  exact ⟨t, m, ht, hm, hl.2, hl.1⟩
+
+/-! ## later attempts from the spool (round 9) -/
+
+/-- a later attempt is made with the policy inputs the message had when the body stage ended -/
+theorem C05_spooled_inputs_are_final (m : QMsg) (rs : List Nat) :
+    (m.retryMsg rs).requireTLS = m.atBody.requireTLS ∧ (m.retryMsg rs).tlsNo = m.atBody.tlsNo ∧
+    ((m.retryMsg rs).quarantine ≠ 0 ↔ m.atBody.quarantine = true) ∧ (m.retryMsg rs).rcpts = rs := by
+  unfold QMsg.retryMsg QMsg.spooled
+  cases m.atBody.quarantine <;> simp
+
+theorem retryList_mem (ms : List QMsg) (outs : List MsgOut) (x : Msg) (h : x ∈ retryList ms outs) :
+    ∃ m ∈ ms, ∃ rs, x = m.retryMsg rs := by
+  unfold retryList at h
+  rw [List.mem_filterMap] at h
+  obtain ⟨p, hp, hx⟩ := h
+  refine ⟨p.1, (List.of_mem_zip hp).1, retryRcpts p.2, ?_⟩
+  by_cases he : (retryRcpts p.2).isEmpty = true
+  · simp [he] at hx
+  · simp [he] at hx; exact hx.symm
+
+/-- **Every attempt.**  First attempts in one world, later attempts from the spool in ANOTHER world (any facts: the
+MX that offered authenticated TLS now offers none), on a target with an empty pool: every connection content is
+written to — in either round — satisfies the requirements of the message as it was when the body stage ended
+(REQUIRETLS, TLS-Required: No, quarantine), judged in the world of THAT attempt. -/
+theorem C05_retry_data_only_on_satisfying_conn (cfg : Cfg) (domsA domsB : Nat → Domain) (ms : List QMsg) :
+    (∀ p ∈ ms.zip (runRetry cfg domsA domsB ms).1, ∀ u ∈ p.2.data,
+      Satisfies cfg p.1.toMsg (domsA u.dom) u ∧ u.dom ∈ p.1.rcpts) ∧
+    (∀ p ∈ (retryList ms (runRetry cfg domsA domsB ms).1).zip (runRetry cfg domsA domsB ms).2, ∀ u ∈ p.2.data,
+      Satisfies cfg p.1 (domsB u.dom) u ∧ u.dom ∈ p.1.rcpts ∧
+      ∃ m ∈ ms, p.1.requireTLS = m.atBody.requireTLS ∧ p.1.tlsNo = m.atBody.tlsNo ∧
+        (p.1.quarantine ≠ 0 ↔ m.atBody.quarantine = true)) := by
+  refine ⟨C05_queued_data_only_on_satisfying_conn cfg domsA ms, ?_⟩
+  intro p hp u hu
+  have h := C05_data_only_on_satisfying_conn_from_start cfg domsB _ p hp u hu
+  obtain ⟨m, hm, rs, hx⟩ := retryList_mem ms _ p.1 (List.of_mem_zip hp).1
+  have hf := C05_spooled_inputs_are_final m rs
+  exact ⟨h.1, h.2, m, hm, by rw [hx]; exact hf.1, by rw [hx]; exact hf.2.1, by rw [hx]; exact hf.2.2.1⟩
+
+/-- the queue went down before the first attempt: the attempt from the spool obeys the final flags as well -/
+theorem C05_from_spool_data_only_on_satisfying_conn (cfg : Cfg) (doms : Nat → Domain) (ms : List QMsg) :
+    ∀ p ∈ ms.zip (runFromSpool cfg doms ms), ∀ u ∈ p.2.data,
+      Satisfies cfg (p.1.retryMsg p.1.rcpts) (doms u.dom) u ∧ u.dom ∈ p.1.rcpts := by
+  intro p hp u hu
+  exact C05_data_only_on_satisfying_conn_from_start cfg doms _ _
+    (mem_zip_map (fun m : QMsg => m.retryMsg m.rcpts) ms _ p hp) u hu
+
+/-- REQUIRETLS survives the spool: a REQUIRETLS message that is retried only goes over authenticated TLS to an
+authenticated MX, whatever the world looks like at the time of the retry -/
+theorem C05_retry_requiretls (cfg : Cfg) (domsA domsB : Nat → Domain) (ms : List QMsg) :
+    ∀ p ∈ (retryList ms (runRetry cfg domsA domsB ms).1).zip (runRetry cfg domsA domsB ms).2, ∀ u ∈ p.2.data,
+      p.1.requireTLS = true →
+      tlsAuthOf (inForce cfg p.1) u.conn.mx u.conn.tls = 2 ∧ 1 ≤ mxAuth (inForce cfg p.1) (domsB u.dom) u.conn.mx := by
+  intro p hp u hu hr
+  have h := ((C05_retry_data_only_on_satisfying_conn cfg domsA domsB ms).2 p hp u hu).1
+  exact ⟨(h.requireTLS hr).1, (h.requireTLS hr).2.1⟩
+
 /-- non-vacuity: REQUIRETLS raised and quarantine raised after the queue delivery was started -/
 example : (⟨⟨false, false, false, false⟩, ⟨true, false, true, false⟩, [0]⟩ : QMsg).toMsg.quarantine = 1 := by decide
 
